@@ -178,6 +178,16 @@ def step (st : St) (j : Json) : St × List String :=
       let (w, r) := addKeyRequest Now.addKeyRefusesWeb st.cfg st.w (jStr j "subj") true order (parseFault j)
       let (st, o) := observe (reg { st with w := w }) r
       (st, [o])
+    else if jStr j "fault" == "tx2err" || jStr j "fault" == "failtx2" then
+      -- the clean-up transaction fails with a DB error (and, `failtx2`, the did:nuts Commit had failed before)
+      match parseOp j with
+      | none => (st, ["bad-op:kind"])
+      | some op =>
+        let (w, r) := stepOpCleanupFails st.cfg st.w op order (jStr j "fault" == "failtx2")
+        let st := { st with w := w, subjects := insertSet st.subjects (jStr j "subj"),
+                            svcs := insertSet (insertSet st.svcs (jStr j "a")) (jStr j "b") }
+        let (st, o) := observe st r
+        (st, [o])
     else
     match parseOp j with
     | none => (st, ["bad-op:kind"])
